@@ -28,6 +28,7 @@ class StrEnumU(_enum.Enum):
     plain = "plain"
     quote = "it's"
     star = "*"
+    pct = "50%_off\\"
 
 
 class IntEnumU(_enum.Enum):
